@@ -117,15 +117,66 @@ struct Side {
     eof_clean: bool,
 }
 
+/// How often the peer's payload was read with plain reads, with vectored reads, and before writing.
+static READ_STYLES: [std::sync::Mutex<u64>; 3] = [std::sync::Mutex::new(0), std::sync::Mutex::new(0), std::sync::Mutex::new(0)];
+
+/// Read exactly `theirs.len()` bytes of the peer's payload (plain or two-slice vectored reads).
+/// Records an error in `side` and returns false if the stream ends or fails first.
+async fn read_payload<S: AsyncRead + Unpin>(io: &mut S, side: &mut Side, theirs: &mut [u8], vectored: bool) -> bool {
+    let peer_len = theirs.len();
+    let mut got = 0;
+    while got < peer_len {
+        let res = if vectored {
+            let rest = &mut theirs[got..];
+            let cut = (rest.len() / 3).min(5);
+            let (a, b) = rest.split_at_mut(cut);
+            let mut bufs = [std::io::IoSliceMut::new(a), std::io::IoSliceMut::new(b)];
+            io.read_vectored(&mut bufs).await
+        } else {
+            io.read(&mut theirs[got..]).await
+        };
+        match res {
+            Ok(0) => {
+                side.err = Some(format!("eof after {got} of {peer_len} payload bytes"));
+                side.received = got;
+                return false;
+            }
+            Ok(n) => got += n,
+            Err(e) => {
+                side.err = Some(format!("read: {:?}", e.kind()));
+                side.received = got;
+                return false;
+            }
+        }
+    }
+    side.received = got;
+    true
+}
+
 /// After negotiation: write own payload, flush, read peer payload, close, read to EOF.
 async fn exchange<S: AsyncRead + AsyncWrite + Unpin>(mut io: S, side: &mut Side, my_seed: u64, my_len: usize, peer_seed: u64, peer_len: usize) {
     let mut mine = vec![0u8; my_len];
     prf_fill(my_seed, 0, &mut mine);
+    // One case in five, exactly one of the two sides (the payload seeds of the two sides differ in
+    // bit 6 only in the low byte; the rest is common) reads the peer's payload BEFORE writing its
+    // own, so that the first operation on the negotiated stream is a read (a V1Lazy dialer must
+    // then send its buffered proposal from inside the read path).  Reads are vectored in half of
+    // the cases (`Negotiated::poll_read_vectored` is a separate entry point).
+    let read_first = (my_seed >> 8) % 5 == 0 && my_seed & 0x40 != 0 && peer_len > 0;
+    let vectored_read = (my_seed.wrapping_mul(0xc2b2ae3d27d4eb4f) >> 41) % 2 == 0;
+    let mut theirs = vec![0u8; peer_len];
+    if read_first {
+        side.stage = "read-first";
+        if !read_payload(&mut io, side, &mut theirs, vectored_read).await {
+            return;
+        }
+        *READ_STYLES[2].lock().unwrap() += 1;
+    }
     side.stage = "write";
     // The first operation on the negotiated stream varies with the case (derived from the payload
     // seed, so replays are exact): plain writes, vectored writes (1..3 slices per call, a separate
     // entry point of `Negotiated`/`LengthDelimitedReader`), or a flush before the first write.
-    let style = (my_seed >> 17) % 4;
+    let style = (my_seed.wrapping_mul(0x9e3779b97f4a7c15) >> 40) % 4;
     if style == 3 {
         if let Err(e) = io.flush().await {
             side.err = Some(format!("flush-first: {:?}", e.kind()));
@@ -174,25 +225,13 @@ async fn exchange<S: AsyncRead + AsyncWrite + Unpin>(mut io: S, side: &mut Side,
         side.err = Some(format!("flush: {:?}", e.kind()));
         return;
     }
-    side.stage = "read";
-    let mut theirs = vec![0u8; peer_len];
-    let mut got = 0;
-    while got < peer_len {
-        match io.read(&mut theirs[got..]).await {
-            Ok(0) => {
-                side.err = Some(format!("eof after {got} of {peer_len} payload bytes"));
-                side.received = got;
-                return;
-            }
-            Ok(n) => got += n,
-            Err(e) => {
-                side.err = Some(format!("read: {:?}", e.kind()));
-                side.received = got;
-                return;
-            }
+    if !read_first {
+        side.stage = "read";
+        if !read_payload(&mut io, side, &mut theirs, vectored_read).await {
+            return;
         }
     }
-    side.received = got;
+    *READ_STYLES[vectored_read as usize].lock().unwrap() += 1;
     let mut expect = vec![0u8; peer_len];
     prf_fill(peer_seed, 0, &mut expect);
     side.mismatch = theirs != expect;
@@ -729,6 +768,10 @@ pub fn run(ctx: &Ctx) -> Report {
     rep.extra.insert("exhaustive_subspaces".into(), json!(["message variant: main x fallback subsets x listener subsets over 4 names x 4 groupings"]));
     for (i, name) in ["first_op_plain_write", "first_op_vectored3", "first_op_vectored2", "first_op_flush_then_write"].iter().enumerate() {
         rep.count(name, *WRITE_STYLES[i].lock().unwrap());
+        rep.floor(name, 20);
+    }
+    for (i, name) in ["payload_read_plain", "payload_read_vectored", "first_op_read_before_write"].iter().enumerate() {
+        rep.count(name, *READ_STYLES[i].lock().unwrap());
         rep.floor(name, 20);
     }
     rep.floor("expected_success", 50);
